@@ -58,7 +58,7 @@ def run(ctx, res):
     res.require_min("R-INDUCT", 12)
     from ..channelrules import rule_hold_bound
     res.guard(rule_hold_bound, prog, res)
-    res.require_min("R-HOLD-BOUND", 4)
+    res.require_min("R-HOLD-BOUND", 5)
     res.require_min("R-WRITE-GUARD", 1)
     res.require_min("R-ENCAPS", 5)
     res.require_min("L-GUARDED", 40)
